@@ -574,6 +574,29 @@ pub fn dump_storage<S: Storage>(storage: &S) -> String {
     format!("heads={} segs={}", if hs.is_empty() { "-".into() } else { hs.join(",") }, segs.values().cloned().collect::<Vec<_>>().join(";"))
 }
 
+/// every stored command as an owned command, in ascending (segment, max_cut) order (parents first)
+pub fn collect_commands<S: Storage>(storage: &S) -> Vec<HxCmd> {
+    let heads = storage.get_heads().expect("heads").clone();
+    let mut seen: BTreeSet<u64> = BTreeSet::new();
+    let mut todo: Vec<Location> = heads.iter().map(|h| h.location()).collect();
+    let mut segs: BTreeMap<u64, Vec<HxCmd>> = BTreeMap::new();
+    while let Some(l) = todo.pop() {
+        if !seen.insert(l.segment.get()) {
+            continue;
+        }
+        let seg = storage.get_segment(l).expect("segment");
+        let cmds: Vec<HxCmd> = seg
+            .get_from(seg.first_location())
+            .iter()
+            .map(|c| HxCmd { id: c.id(), prio: c.priority(), parent: c.parent(), policy: c.policy().map(|p| p.to_vec()), data: c.bytes().to_vec() })
+            .collect();
+        segs.insert(l.segment.get(), cmds);
+        todo.extend(seg.prior().into_iter());
+        todo.extend(seg.skip_list().iter().copied());
+    }
+    segs.into_values().flatten().collect()
+}
+
 // ---------------------------------------------------------------- script interpreter
 
 pub fn run_script<B: Backend>(backend: &mut B, lines: &mut dyn Iterator<Item = String>, emit: &mut dyn FnMut(String)) {
@@ -675,6 +698,39 @@ pub fn run_script<B: Backend>(backend: &mut B, lines: &mut dyn Iterator<Item = S
                     w.caches.remove(&(a, b));
                     w.caches.remove(&(b, a));
                     out.push("forget ok".into());
+                }
+                "feed" => {
+                    // feed <dst> <src>: every command stored at <src>, parents first, added to <dst> in ONE
+                    // transaction (a linear run of new commands lands in a single segment)
+                    let w = world.as_mut().unwrap();
+                    let d: usize = toks[1].parse().unwrap();
+                    let s: usize = toks[2].parse().unwrap();
+                    let g = w.graph.unwrap();
+                    let cmds: Vec<HxCmd> = {
+                        let storage = w.clients[s].provider().get_storage(g).expect("feed: source storage");
+                        collect_commands(&*storage)
+                    };
+                    let bufs = &mut *w.bufs;
+                    let mut trx = w.clients[d].transaction(g);
+                    let mut sink = NoSink;
+                    let mut added = 0usize;
+                    let mut err: Option<String> = None;
+                    for chunk in cmds.chunks(90) {
+                        match w.clients[d].add_commands(&mut trx, &mut sink, chunk, bufs, MemSpill::new) {
+                            Ok(k) => added += k,
+                            Err(e) => {
+                                err = Some(client_err(&e));
+                                break;
+                            }
+                        }
+                    }
+                    match err {
+                        Some(e) => out.push(format!("feed err {}", e)),
+                        None => match w.clients[d].commit(trx, &mut sink, bufs, MemSpill::new) {
+                            Ok(_) => out.push(format!("feed ok {} of {}", added, cmds.len())),
+                            Err(e) => out.push(format!("feed commit err {}", client_err(&e))),
+                        },
+                    }
                 }
                 "hello" => {
                     // hello <advertiser> <receiver>: advertiser's hello_head, receiver's decision
